@@ -516,3 +516,121 @@ func emptyStringTest(cond ssa.Value, recv ssa.Value) (*types.Var, int, bool) {
 	}
 	return nil, 0, false
 }
+
+func init() {
+	register("LDR-17", "the listener and the builder do not reach through a child of a syntax-tree node that the parser's error recovery may have left unset", 1, ruleLDR17)
+}
+
+// LDR-17 (C20). After a syntax error ANTLR's recovery still exits the rule contexts it had entered, so a listener
+// callback can see a node whose children were never delivered (D26: a rule entry with only a header; round-4 seed
+// C20/a: a then scope without its expression list). Nothing on the GRL loader path recovers from a nil dereference. The
+// rule looks at every function of the listener and builder packages: a dereference of a pointer that was loaded from a
+// node-typed field of a syntax-tree node (x.Child.Field, x.Child.Method() with a pointer receiver that is then
+// dereferenced is not followed) has to be dominated by the non-nil edge of a nil test of the same field of the same node.
+func ruleLDR17(c *Ctx) {
+	p := c.P
+	nodeNamed := map[*types.Named]bool{}
+	for _, n := range append(append([]string{}, nodeTypeNames...), "Grl") {
+		if nt := p.Named("ast", n); nt != nil {
+			nodeNamed[nt] = true
+		}
+	}
+	isNodePtr := func(t types.Type) bool {
+		pt, ok := t.(*types.Pointer)
+		if !ok {
+			return false
+		}
+		nt, ok := pt.Elem().(*types.Named)
+		return ok && nodeNamed[nt]
+	}
+	// positive control on the fixture
+	if fp, err := fixture(); err != nil {
+		c.Control(false, err.Error())
+	} else {
+		isFixNode := func(t types.Type) bool {
+			pt, ok := t.(*types.Pointer)
+			if !ok {
+				return false
+			}
+			nt, ok := pt.Elem().(*types.Named)
+			return ok && nt.Obj().Name() == "node"
+		}
+		u1 := childDerefSites(fp.Func("ChildReacher"), isFixNode)
+		u2 := childDerefSites(fp.Func("GuardedChildReacher"), isFixNode)
+		c.Control(len(u1) == 1 && !u1[0].guarded && len(u2) == 1 && u2[0].guarded, "child-dereference detector flags the fixture's ChildReacher and accepts GuardedChildReacher")
+	}
+	nSites, nGuarded := 0, 0
+	var fns []*ssa.Function
+	for _, fn := range p.ModuleFuncs() {
+		if (fnPkgShort(fn) == "antlr" || fnPkgShort(fn) == "builder") && fn.Blocks != nil {
+			fns = append(fns, fn)
+		}
+	}
+	sort.Slice(fns, func(i, j int) bool { return fns[i].String() < fns[j].String() })
+	for _, fn := range fns {
+		for _, st := range childDerefSites(fn, isNodePtr) {
+			nSites++
+			c.Touch(fnName(fn))
+			construct := fmt.Sprintf("%s / reaches through %s", fnName(fn), strings.TrimPrefix(p.fieldOwner(st.field), "?."))
+			if st.guarded {
+				nGuarded++
+				c.OK(construct, p.InstrPos(st.at), "behind the non-nil edge of a test of the same field")
+			} else {
+				c.Fail(construct, p.InstrPos(st.at), "the child "+st.field.Name()+" of a syntax-tree node is dereferenced without a nil test: after a syntax error the parser's recovery exits contexts whose children were never delivered (`rule R { when F.A > 1 }` gives a then scope without an expression list), and nothing on the GRL loader path recovers from the nil dereference, which leaves BuildRuleFromResource as a panic")
+			}
+		}
+	}
+	c.OK("listener and builder packages / dereferences through a child field examined", "antlr/GruleParserV3Listener.go", fmt.Sprintf("%d functions, %d sites, %d guarded", len(fns), nSites, nGuarded))
+}
+
+type childDeref struct {
+	at      ssa.Instruction
+	field   *types.Var
+	guarded bool
+}
+
+// childDerefSites: dereferences in fn of a pointer loaded from a node-typed field of a node, with whether a nil test of
+// the same field of the same node dominates them.
+func childDerefSites(fn *ssa.Function, isNodePtr func(types.Type) bool) []childDeref {
+	var out []childDeref
+	if fn == nil {
+		return nil
+	}
+	for _, b := range fn.Blocks {
+		for _, in := range b.Instrs {
+			var ptr ssa.Value
+			switch x := in.(type) {
+			case *ssa.FieldAddr:
+				ptr = x.X
+			case *ssa.UnOp:
+				if x.Op.String() == "*" {
+					if _, isFA := x.X.(*ssa.FieldAddr); !isFA {
+						if _, isAlloc := x.X.(*ssa.Alloc); !isAlloc {
+							ptr = x.X
+						}
+					}
+				}
+			}
+			if ptr == nil || !isNodePtr(ptr.Type()) {
+				continue
+			}
+			f, base := fieldLoad(ptr)
+			if f == nil || base == nil || !isNodePtr(base.Type()) {
+				continue
+			}
+			guarded := edgesDominate(fn, in, func(bb *ssa.BasicBlock, si int) bool {
+				iff, isIf := bb.Instrs[len(bb.Instrs)-1].(*ssa.If)
+				if !isIf {
+					return false
+				}
+				kind, sNil, okc := condOn(iff.Cond, func(x ssa.Value) bool {
+					f2, base2 := fieldLoad(x)
+					return f2 == f && base2 == base
+				})
+				return okc && kind == "nil" && si == 1-sNil
+			})
+			out = append(out, childDeref{in, f, guarded})
+		}
+	}
+	return out
+}
